@@ -3,7 +3,9 @@
 //verif:dir p2p/protocol/identify
 //verif:hook core/peer IDFromPublicKey
 //verif:hook core/record Envelope.Record
-//verif:hook core/record ConsumeEnvelope
+//verif:hook core/record UnmarshalEnvelope
+//verif:hook core/record Envelope.validate
+//verif:hook core/peer PeerRecord.UnmarshalRecord
 //verif:hook core/crypto UnmarshalPublicKey
 //verif:hook p2p/protocol/identify filterAddrs
 //verif:replace github.com/multiformats/go-multiaddr.NewMultiaddrBytes vC13addrFromBytes
@@ -11,7 +13,7 @@
 //verif:obligation C13.b consumeMessage: every peerstore write (protocols, addresses, TTL updates, metadata, key) is keyed by the connection's authenticated remote peer, whatever the message contains; at most 1024 protocols and 500 addresses are retained, whether the addresses come from the listen-address field or from a signed record; addresses get the connected TTL iff a connection to the peer exists at that moment, decided while holding the address lock (so a concurrent last disconnect cannot slip in between), otherwise the finite recently-connected TTL; an invalid or foreign signed record is not used and not published
 //verif:obligation C13.c netNotifiee.Disconnected: when the last connection closes, under the address lock, connected addresses are downgraded (Connected -> Temp, at most 20 addresses incl. the closed connection's own re-added as RecentlyConnected, Temp dropped); while another connection exists nothing is downgraded
 //verif:bound messages with 0 / 1024 / 1026 protocols and 0 / 500 / 502 listen addresses, signed record present or not with every validation outcome; 0 / 20 / 25 stored addresses at disconnect
-//verif:stub host / peerstore / network / connection / emitter stubs logging every write; record.ConsumeEnvelope, Envelope.Record, crypto.UnmarshalPublicKey, peer.IDFromPublicKey hooked with symbolic outcomes (idealised crypto); filterAddrs hooked to the identity (address-class filtering outside); multiaddrs are atoms in the symbolic run
+//verif:stub host / peerstore / network / connection / emitter stubs logging every write; record.UnmarshalEnvelope, Envelope.validate, Envelope.Record, PeerRecord.UnmarshalRecord (so the real ConsumeEnvelope / ConsumeTypedEnvelope bodies run, whichever identify uses), crypto.UnmarshalPublicKey, peer.IDFromPublicKey hooked with symbolic outcomes (idealised crypto); filterAddrs hooked to the identity (address-class filtering outside); multiaddrs are atoms in the symbolic run
 //verif:assume the connection has a non-empty authenticated remote peer ID
 //verif:outside message chunking, identify-vs-disconnect races beyond the lock check, IdentifyWait release, address class filtering
 package identify
@@ -177,7 +179,8 @@ var vC13recAddrs = 2 // addresses carried by the signed record
 
 func vC13unhook() {
 	vC13recAddrs = 2
-	peer.VerifHook_IDFromPublicKey, record.VerifHook_Envelope_Record, record.VerifHook_ConsumeEnvelope = nil, nil, nil
+	peer.VerifHook_IDFromPublicKey, record.VerifHook_Envelope_Record = nil, nil
+	record.VerifHook_UnmarshalEnvelope, record.VerifHook_Envelope_validate, peer.VerifHook_PeerRecord_UnmarshalRecord = nil, nil, nil
 	crypto.VerifHook_UnmarshalPublicKey, VerifHook_filterAddrs = nil, nil
 }
 
@@ -266,11 +269,22 @@ func VerifC13bConsumeMessage() {
 	if signed > 0 {
 		mes.SignedPeerRecord = []byte("envelope")
 	}
-	record.VerifHook_ConsumeEnvelope = func(data []byte, domain string) (*record.Envelope, record.Record, error) {
+	record.VerifHook_UnmarshalEnvelope = func(data []byte) (*record.Envelope, error) {
+		return &record.Envelope{PublicKey: &vC13key{id: keyID}}, nil // a well-formed envelope naming some key
+	}
+	record.VerifHook_Envelope_validate = func(e *record.Envelope, domain string) error {
 		if signed == 2 || domain != peer.PeerRecordEnvelopeDomain {
-			return nil, nil, errors.New("invalid signature")
+			return errors.New("invalid signature")
 		}
-		return &record.Envelope{PublicKey: &vC13key{id: keyID}}, nil, nil
+		return nil
+	}
+	peer.VerifHook_PeerRecord_UnmarshalRecord = func(r *peer.PeerRecord, b []byte) error {
+		r.PeerID = recID
+		r.Addrs = nil
+		for i := 0; i < vC13recAddrs; i++ {
+			r.Addrs = append(r.Addrs, vC13addr(900+i))
+		}
+		return nil
 	}
 	mes.PublicKey = []byte("key-bytes")
 	crypto.VerifHook_UnmarshalPublicKey = func(b []byte) (crypto.PubKey, error) { return &vC13key{id: keyID}, nil }
